@@ -84,11 +84,13 @@ pub fn try_use_context<T: Clone + 'static>() -> Option<T> {
                 return Some(value);
             }
         }
-        // No context of the right type found for this scope. Now check the parent scope.
+        // No context of the right type found for this scope. Now check the parent scope. While a
+        // scope is being disposed, its children can outlive it for a moment: a parent that is
+        // already gone provides nothing.
         if next.parent.is_null() {
             current = None;
         } else {
-            current = Some(&nodes[next.parent]);
+            current = nodes.get(next.parent);
         }
     }
     None
